@@ -88,7 +88,7 @@ def kminus(a, b):
 
 class St:
     """iters: key → (H, N);  pend: elem id → kinds;  env: name → value;  leaked: frozenset((id, kinds))"""
-    __slots__ = ("iters", "pend", "env", "leaked", "nc", "nodes")
+    __slots__ = ("iters", "pend", "env", "leaked", "nc", "nodes", "ek", "tail", "dclosed")
 
     def __init__(self):
         self.iters = {}
@@ -97,6 +97,9 @@ class St:
         self.leaked = frozenset()
         self.nc = frozenset()        # elements / iterators known to contain no comment (has_comment(..) was false)
         self.nodes = frozenset()     # consumed elements known (on this path) to be nodes
+        self.ek = {}                 # elements that may be a LINE_COMMENT → their possible kinds (kept after emission)
+        self.tail = frozenset()      # obligations at the end of the current output buffer: a hard line must come next
+        self.dclosed = frozenset()   # deferred docs known (on this path) to end with a hard line
 
     def copy(self):
         s = St()
@@ -106,11 +109,15 @@ class St:
         s.leaked = self.leaked
         s.nc = self.nc
         s.nodes = self.nodes
+        s.ek = dict(self.ek)
+        s.tail = self.tail
+        s.dclosed = self.dclosed
         return s
 
     def same(self, o):
         return (o is not None and self.iters == o.iters and self.pend == o.pend and self.env == o.env
-                and self.leaked == o.leaked and self.nc == o.nc and self.nodes == o.nodes)
+                and self.leaked == o.leaked and self.nc == o.nc and self.nodes == o.nodes and self.ek == o.ek
+                and self.tail == o.tail and self.dclosed == o.dclosed)
 
 
 def join(a, b):
@@ -136,6 +143,10 @@ def join(a, b):
     s.leaked = a.leaked | b.leaked
     s.nc = a.nc & b.nc
     s.nodes = a.nodes & b.nodes
+    for k in set(a.ek) | set(b.ek):
+        s.ek[k] = a.ek.get(k, frozenset()) | b.ek.get(k, frozenset())
+    s.tail = a.tail | b.tail
+    s.dclosed = a.dclosed & b.dclosed
     return s
 
 
@@ -177,9 +188,18 @@ class Model:
         self.syntax_kind_fns = set()
         self.children_fns = set()
         self.accessor_formatters = {}  # frozen exceptions: path → reason
+        self.token_fn = None
+        self.doc_from_children = set()
         self.droppable = frozenset()   # layout + optional separators (the property's own vocabulary)
         self.comments = frozenset()
         self.comment_preds = set()     # fns that answer "does this subtree contain a comment token?"
+        self.line_comment = "LINE_COMMENT"
+        self.fmt_push = {}             # Formatter method → 'hard' | 'generic' | 'append' (what it pushes to the output)
+        self.comb_kind = {}            # Formatter combinator → 'wrap' | 'ifbreak' | 'detach'
+        self.is_trivia_fn = None
+        self.ehl_preds = set()         # fns that answer "does this doc end with a hard line?"
+        self.doc_carriers = {}         # ctor → field indices of type Doc
+        self.doc_ty = "dora_format::doc::Doc"
 
 
 class Interp:
@@ -202,6 +222,13 @@ class Interp:
         self.notes = []
         self.ncons = {}               # iterator key → how often it advanced (to invalidate peeks held by callers)
         self.unsummarised = set()     # helpers called without being inlined (recursion): judged from an unknown state
+        self.r7_emits = {}            # (site fn, node id) → {"line", "root"}: Formatter::token on a possible line comment
+        self.r7_events = []           # (kind, fn where it happens, detail, origins)
+        self.carried_kinds = {}       # token carrier ctor → kinds put in
+        self.doc_carried_open = {}    # doc carrier ctor → set(fn) that stored a doc ending in an open line comment
+        self.copen = {}               # (input) doc carrier ctors that may hold an open doc
+        self.ckinds = {}              # (input) token carrier ctor → kinds
+        self.retopen_in = set()       # (input) fns whose returned doc may end in an open line comment
 
     # ------------------------------------------------------------------ iterator state
     def norm(self, S, key):
@@ -250,6 +277,10 @@ class Interp:
         self.sites[(fr.fn, id(e))]["kinds"] |= H
         if eid in S.pend:
             S.leaked = S.leaked | {(eid, kminus(S.pend[eid], {END}))}
+        if self.m.line_comment in H:
+            S.ek[eid] = kminus(H, {END})
+        else:
+            S.ek.pop(eid, None)
         if H <= self.m.droppable | {END}:
             # layout / optional separator: dropping it is always acceptable, no need to track it
             S.pend.pop(eid, None)
@@ -265,6 +296,10 @@ class Interp:
             else:
                 S.nodes = S.nodes - {eid}
             S.iters[key] = (self.top, self.top, eid)
+        # a variable holding the peeked kind of the head now holds the kind of the element just taken
+        for n, v in list(S.env.items()):
+            if v[0] == "peek" and v[1] == key and v[2] == "H" and not v[3]:
+                S.env[n] = ("ekind", eid)
         self.forget_peeks(S, key)
         return ("elem", eid, "next")
 
@@ -299,12 +334,64 @@ class Interp:
         S.pend.pop(eid, None)
 
     def refine_elem(self, S, eid, kinds, positive):
+        if eid in S.ek:
+            ks = S.ek[eid]
+            ks = kinter(ks, kinds) if positive else kminus(ks, kinds)
+            S.ek[eid] = ks
+            if not ks:
+                return False
+            self.prune(S)
         if eid not in S.pend:
             return True
         ks = S.pend[eid]
         ks = kinter(ks, kinds) if positive else kminus(ks, kinds)
         S.pend[eid] = ks
         return bool(ks)
+
+    # ------------------------------------------------------------------ R7: what follows a line comment
+    def prune(self, S):
+        """obligations that can no longer be a line comment on this path are dropped before paths are joined"""
+        if S.tail:
+            S.tail = frozenset(o for o in S.tail if self.live(S, o))
+
+    def live(self, S, o):
+        if o[0] == "e":
+            return self.m.line_comment in S.ek.get(o[1], ())
+        if o[0] == "d":
+            return o[1] not in S.dclosed and self.live(S, o[2])
+        if o[0] == "c":
+            return o[1] not in S.dclosed
+        return True
+
+    def doc_open(self, S, v):
+        return v[0] == "doc" and v[1] not in S.dclosed and any(self.live(S, o) for o in v[2])
+
+    def origins(self, S, obs):
+        out = set()
+        for o in obs:
+            while o[0] == "d":
+                o = o[2]
+            if o[0] == "e":
+                info = self.eleminfo.get(o[1], {})
+                out.add(info.get("emit_fn") or info.get("fn"))
+            elif o[0] == "c":
+                out.add("carrier:" + o[2])
+            else:
+                out.add(str(o[1]))
+        return tuple(sorted(x for x in out if x))
+
+    def push(self, S, fr, what, line, new_tail=frozenset(), discharges=False):
+        """something is appended to the current output buffer"""
+        if not discharges:
+            lv = [o for o in S.tail if self.live(S, o)]
+            if lv:
+                self.r7_events.append(("push", fr.fn, what, self.origins(S, lv), line))
+        S.tail = frozenset(new_tail)
+
+    def exit_check(self, S, fr, where_):
+        lv = [o for o in S.tail if self.live(S, o)]
+        if lv:
+            self.r7_events.append(("return", fr.fn, where_, self.origins(S, lv), 0))
 
     def elem_is_none(self, S, eid):
         """the Option returned by next() is None: nothing was consumed, the iterator is exhausted"""
@@ -398,7 +485,7 @@ class Interp:
         if k == "pwild":
             return True
         if k == "pbind":
-            S.env[p[1]] = v if v[0] != "bsplit" else UNK
+            S.env[p[1]] = v if v[0] not in ("bsplit", "vsplit") else UNK
             if p[2] is not None:
                 return self.bind(p[2], v, S, fr)
             return True
@@ -468,7 +555,22 @@ class Interp:
                         self.eleminfo[eid] = {"fn": fr.fn, "line": 0, "itkey": None, "origin": "carrier:" + ctor,
                                               "root": fr.root.fn}
                         S.pend[eid] = frozenset(self.m.allk)
+                        ck = frozenset(self.ckinds.get(ctor, ()))
+                        if self.m.line_comment in ck:
+                            S.ek[eid] = ck
+                        else:
+                            S.ek.pop(eid, None)
                         S.env[q[1]] = ("elem", eid, None)
+                    elif not self.bind(q, UNK, S, fr):
+                        return False
+                return True
+            if ctor in self.m.doc_carriers:
+                for i, q in enumerate(subs):
+                    if i in self.m.doc_carriers[ctor] and is_node(q) and q[0] == "pbind":
+                        did = (fr.ctx, id(q))
+                        opens = frozenset({("c", did, ctor)}) if ctor in self.copen else frozenset()
+                        S.dclosed = S.dclosed - {did}
+                        S.env[q[1]] = ("doc", did, opens)
                     elif not self.bind(q, UNK, S, fr):
                         return False
                 return True
@@ -631,25 +733,50 @@ class Interp:
         v = UNIT
         fr.scopes.append(id(e))
         try:
-            for st in e[1]:
-                if is_node(st) and st[0] == "let":
-                    S = self.do_let(st, S, fr, id(e))
-                else:
-                    _, S = self.eval(st, S, fr)
-                if S is None:
-                    return UNK, None
-            if e[2] is not None:
-                v, S = self.eval(e[2], S, fr)
-                if S is None:
-                    return UNK, None
+            v, S = self.run_stmts(e[1], 0, e[2], S, fr, id(e))
+            if S is None:
+                return UNK, None
         finally:
             fr.scopes.pop()
-        if v[0] == "bsplit":
-            a, b = v[1], v[2]
-            for x in (a, b):
-                if x is not None:
-                    self.scope_exit_quiet(x, names, saved)
+        for x in self.sub_states(v):
+            self.scope_exit_quiet(x, names, saved)
         self.scope_exit(S, names, saved, fr, id(e))
+        return v, S
+
+    def sub_states(self, v):
+        if v[0] == "bsplit":
+            return [x for x in (v[1], v[2]) if x is not None]
+        if v[0] == "vsplit":
+            return [cs for (_cv, cs) in v[1]]
+        return []
+
+    def run_stmts(self, stmts, i, tail, S, fr, scope_id):
+        v = UNIT
+        while i < len(stmts):
+            st = stmts[i]
+            i += 1
+            if is_node(st) and st[0] == "let":
+                if st[2] is not None:
+                    iv, S = self.eval(st[2], S, fr)
+                    if S is None:
+                        return UNK, None
+                    if iv[0] == "vsplit":
+                        # run the rest of the block once per branch of the initialiser and join the results
+                        outs = []
+                        for (cv, cs) in iv[1]:
+                            cs = self.finish_let(st, cv, cs.copy(), fr, scope_id)
+                            outs.append(self.run_stmts(stmts, i, tail, cs, fr, scope_id) if cs is not None
+                                        else (UNK, None))
+                        return self.merge_branches(outs)
+                    S = self.finish_let(st, iv, S, fr, scope_id)
+            else:
+                _, S = self.eval(st, S, fr)
+            if S is None:
+                return UNK, None
+        if tail is not None:
+            v, S = self.eval(tail, S, fr)
+            if S is None:
+                return UNK, None
         return v, S
 
     def scope_exit_quiet(self, S, names, saved):
@@ -660,13 +787,16 @@ class Interp:
                 S.env.pop(n, None)
 
     def do_let(self, st, S, fr, scope_id):
-        pat, init, els = st[1], st[2], st[3]
-        if init is None:
+        if st[2] is None:
             return S
-        v, S = self.eval(init, S, fr)
+        v, S = self.eval(st[2], S, fr)
         if S is None:
             return None
-        if v[0] == "bsplit":
+        return self.finish_let(st, v, S, fr, scope_id)
+
+    def finish_let(self, st, v, S, fr, scope_id):
+        pat, init, els = st[1], st[2], st[3]
+        if v[0] in ("bsplit", "vsplit"):
             v = UNK
         if els is not None:
             neg = S.copy()
@@ -697,6 +827,24 @@ class Interp:
             f = S.copy()
             f.nc = f.nc | {v[1]}
             return S, f
+        if v[0] == "ktest":
+            t, f = S, S.copy()
+            ok_t = self.refine_kindlike(t, v[1], v[2], True)
+            ok_f = self.refine_kindlike(f, v[1], v[2], False)
+            t, f = (t if ok_t else None), (f if ok_f else None)
+            return (t, f) if v[3] else (f, t)
+        if v[0] == "ehl":
+            t, f = S, S.copy()
+            t.dclosed = t.dclosed | {v[1]}
+            self.prune(t)
+            return (t, f) if v[2] else (f, t)
+        if v[0] == "vsplit":
+            ts, fs = [], []
+            for (cv, cs) in v[1]:
+                t, f = self.as_split(cv, cs.copy())
+                ts.append(t)
+                fs.append(f)
+            return joinall(ts), joinall(fs)
         return S, S.copy()
 
     def cond(self, e, S, fr):
@@ -706,11 +854,13 @@ class Interp:
         if is_node(e0) and e0[0] == "un" and e0[1] == "Not":
             t, f = self.cond(e0[2], S, fr)
             return f, t
+        if is_node(e0) and e0[0] == "macro":
+            return self.cond(e0[2], S, fr)
         if is_node(e0) and e0[0] == "letx":
             v, S = self.eval(e0[2], S, fr)
             if S is None:
                 return None, None
-            if v[0] == "bsplit":
+            if v[0] in ("bsplit", "vsplit"):
                 v = UNK
             neg = S.copy()
             pos = S
@@ -733,10 +883,29 @@ class Interp:
         t, f = self.cond(e, S, fr)
         return ("bsplit", t, f), join(t, f)
 
+    def negate(self, v):
+        if v[0] == "bool":
+            return ("bool", not v[1])
+        if v[0] == "ktest":
+            return ("ktest", v[1], v[2], not v[3])
+        if v[0] == "ehl":
+            return ("ehl", v[1], not v[2])
+        return None
+
     def ev_un(self, e, S, fr):
         if e[1] == "Not":
-            t, f = self.cond(e, S, fr)
-            return ("bsplit", t, f), join(t, f)
+            inner = e[2]
+            if is_node(inner) and inner[0] == "letx":
+                t, f = self.cond(e, S, fr)
+                return ("bsplit", t, f), join(t, f)
+            v, S2 = self.eval(inner, S, fr)
+            if S2 is None:
+                return UNK, None
+            nv = self.negate(v)
+            if nv is not None:
+                return nv, S2
+            t, f = self.as_split(v, S2)
+            return ("bsplit", f, t), join(t, f)
         return self.eval(e[2], S, fr)      # Deref / Neg: same abstract value
 
     def ev_addr(self, e, S, fr):
@@ -755,6 +924,9 @@ class Interp:
         if S is None:
             return UNK, None
         if op in ("Eq", "Ne"):
+            for x, y in ((a, b), (b, a)):
+                if x[0] == "ekind" and y[0] == "kind" and len(y[1]) == 1 and not any(is_sym(k) for k in y[1]):
+                    return ("ktest", x, y[1], op == "Eq"), S
             t, f = self.compare(a, b, S)
             if op == "Ne":
                 t, f = f, t
@@ -811,6 +983,9 @@ class Interp:
         vals = {v for v, _ in live}
         if len(vals) == 1:
             return live[0][0], S
+        if all(v[0] in ("bool", "ktest", "ehl") for v in vals):
+            # different stable facts on different branches: keep the branches apart until the value is used
+            return ("vsplit", tuple(live)), S
         # the same element on every branch (possibly wrapped differently)
         ids = {v[1] for v in vals if v[0] == "elem"}
         if len(ids) == 1 and all(v[0] in ("elem", "none") for v in vals):
@@ -821,7 +996,7 @@ class Interp:
         v, S = self.eval(e[1], S, fr)
         if S is None:
             return UNK, None
-        if v[0] == "bsplit":
+        if v[0] in ("bsplit", "vsplit"):
             v = UNK
         outs = []
         rest = S
@@ -846,10 +1021,8 @@ class Interp:
                     continue
             bv, a = self.eval(body, a, fr)
             if a is not None:
-                if bv[0] == "bsplit":
-                    for x in (bv[1], bv[2]):
-                        if x is not None:
-                            self.scope_exit_quiet(x, names, saved)
+                for x in self.sub_states(bv):
+                    self.scope_exit_quiet(x, names, saved)
                 self.arm_exit(a, names, saved, fr)
             outs.append((bv, a))
         return self.merge_branches(outs)
@@ -932,7 +1105,7 @@ class Interp:
             v, S = self.eval(x, S, fr)
             if S is None:
                 return UNK, None
-            vs.append(v if v[0] != "bsplit" else UNK)
+            vs.append(v if v[0] not in ("bsplit", "vsplit") else UNK)
         return ("tup", tuple(vs)), S
 
     def ev_field(self, e, S, fr):
@@ -949,7 +1122,7 @@ class Interp:
             return UNK, None
         ln = e[1]
         if is_node(ln) and ln[0] == "local":
-            S.env[ln[1]] = v if v[0] != "bsplit" else UNK
+            S.env[ln[1]] = v if v[0] not in ("bsplit", "vsplit") else UNK
         else:
             _, S = self.eval(ln, S, fr)
         return UNIT, S
@@ -978,6 +1151,7 @@ class Interp:
         return UNK, S
 
     def carry(self, S, v, ctor, fr):
+        self.carried_kinds.setdefault(ctor, set()).update(S.pend.get(v[1], ()) | S.ek.get(v[1], frozenset()))
         if v[1] in S.pend:
             self.carried.setdefault(ctor, set()).add(fr.fn)
             self.emit(S, v[1], "carrier:" + ctor)
@@ -998,7 +1172,7 @@ class Interp:
             v, S = self.eval(a, S, fr)
             if S is None:
                 return UNK, None
-            vals.append(v if v[0] != "bsplit" else UNK)
+            vals.append(v if v[0] not in ("bsplit", "vsplit") else UNK)
         if cv[0] == "closure":
             return self.apply_closure(cv[1], vals, S, fr, e)
         if cv[0] == "fnref" and cv[1] in self.m.fns:
@@ -1006,6 +1180,7 @@ class Interp:
         for v in vals:
             if v[0] == "iter":
                 self.havoc(S, v[1], fr, line, "call through an unknown closure value")
+        self.push(S, fr, "the output of a closure parameter", line)
         return UNK, S
 
     def do_ctor(self, path, args, S, fr):
@@ -1014,11 +1189,15 @@ class Interp:
             v, S = self.eval(a, S, fr)
             if S is None:
                 return UNK, None
-            vals.append(v if v[0] != "bsplit" else UNK)
+            vals.append(v if v[0] not in ("bsplit", "vsplit") else UNK)
         if path == "core::option::Option::Some" and len(vals) == 1:
             if vals[0][0] == "elem":
                 return ("elem", vals[0][1], vals[0][2] or "cast"), S
             return ("some", vals[0]), S
+        if path in self.m.doc_carriers:
+            for i, v in enumerate(vals):
+                if i in self.m.doc_carriers[path] and self.doc_open(S, v):
+                    self.doc_carried_open.setdefault(path, set()).add(fr.fn)
         if path in self.m.carriers:
             for i, v in enumerate(vals):
                 if v[0] == "elem" and i in self.m.carriers[path]:
@@ -1040,6 +1219,15 @@ class Interp:
                 if v[0] == "iter":
                     raise Unsupported("unresolved method `%s` on a child iterator in %s" % (e[3], fr.fn))
             return UNK, S
+        recv = hirq.strip(e[4])
+        if e[3] == "push" and is_node(recv) and recv[0] == "field" and recv[2] == "out" and len(recv) > 3 \
+                and is_fmt_ty(recv[3]) and fr.fn != self.m.token_fn:
+            vals, S = self.eval_args(args, S, fr)
+            if S is None:
+                return UNK, None
+            self.escape_check(S, fr, vals[1:], "a direct push on Formatter::out", e[1])
+            self.push(S, fr, "a direct push on Formatter::out", e[1])
+            return UNIT, S
         return self.do_call(path, args, S, fr, e[1], e, e[6] if len(e) > 6 else None)
 
     def eval_args(self, args, S, fr):
@@ -1048,7 +1236,7 @@ class Interp:
             v, S = self.eval(a, S, fr)
             if S is None:
                 return vals, None
-            vals.append(v if v[0] != "bsplit" else UNK)
+            vals.append(v if v[0] not in ("bsplit", "vsplit") else UNK)
         return vals, S
 
     def do_call(self, path, args, S, fr, line, e, recv_ty):
@@ -1081,9 +1269,44 @@ class Interp:
         # --- emitters
         if path in m.base_emit:
             i = m.base_emit[path]
-            if i < len(vals) and vals[i][0] == "elem":
-                self.emit(S, vals[i][1], last(path))
+            tv = vals[i] if i < len(vals) else UNK
+            if tv[0] == "elem":
+                self.emit(S, tv[1], last(path))
+            if path == m.token_fn:
+                new_tail = frozenset()
+                if tv[0] == "elem":
+                    if m.line_comment in S.ek.get(tv[1], ()):
+                        new_tail = frozenset({("e", tv[1])})
+                        self.eleminfo[tv[1]]["emit_fn"] = fr.fn
+                        self.r7_emits.setdefault((fr.fn, id(e)), {"line": line, "roots": set()})["roots"].add(fr.root.fn)
+                else:
+                    self.r7_events.append(("untracked-token", fr.fn, "Formatter::token on a value that is not a tracked "
+                                           "syntax element", (), line))
+                self.push(S, fr, "a token", line, new_tail)
+            else:
+                self.push(S, fr, "the output of %s" % last(path), line)
             return UNIT, S
+        if path in m.fmt_push:
+            kind = m.fmt_push[path]
+            if kind == "hard":
+                self.push(S, fr, "hard line", line, discharges=True)
+            elif kind == "append":
+                dv = next((v for v in vals[1:] if v[0] == "doc"), None)
+                nt = frozenset(("d", dv[1], o) for o in dv[2]) if dv is not None else frozenset()
+                self.push(S, fr, "an appended doc", line, nt)
+            else:
+                self.push(S, fr, "%s()" % last(path), line)
+            return UNIT, S
+        if path in m.ehl_preds:
+            dv = next((v for v in vals if v[0] == "doc"), None)
+            return (("ehl", dv[1], True) if dv is not None else UNK), S
+        if path in m.doc_from_children:
+            # the docs pushed since some earlier point are taken out of the buffer and become one deferred doc
+            opens = frozenset(o for o in S.tail if self.live(S, o))
+            S.dclosed = S.dclosed - {(fr.ctx, id(e))}
+            return ("doc", (fr.ctx, id(e)), opens), S
+        if path == m.is_trivia_fn and v0[0] == "ekind":
+            return ("ktest", v0, frozenset(m.trivia), True), S
         if path in m.children_fns:
             if v0[0] == "elem":
                 self.emit(S, v0[1], "children")
@@ -1136,7 +1359,20 @@ class Interp:
         if path in m.inline_once:
             ci = m.inline_once[path]
             if ci < len(vals) and vals[ci][0] == "closure":
+                ck = m.comb_kind.get(path, "wrap")
+                before = S.tail
+                if ck == "detach":
+                    S.tail = frozenset()
                 _, S = self.apply_closure(vals[ci][1], [v0], S, fr, e)
+                if S is None:
+                    return UNK, None
+                if ck == "detach":
+                    opens = frozenset(o for o in S.tail if self.live(S, o))
+                    S.tail = before
+                    S.dclosed = S.dclosed - {(fr.ctx, id(e))}
+                    return ("doc", (fr.ctx, id(e)), opens), S
+                if ck == "ifbreak":
+                    S.tail = before | S.tail        # rendered only when the group breaks: discharges nothing
                 return UNK, S
             raise Unsupported("combinator %s called with a non-literal closure in %s" % (path, fr.fn))
         # --- functions of the analysed crate
@@ -1158,12 +1394,27 @@ class Interp:
                     return UNK, S
                 return self.inline(path, hb, vals, S, fr, e)
             self.apply_emits(path, vals, S)
+            self.escape_check(S, fr, vals, path, line)
+            if any(is_fmt_ty(ty) for (_p, ty) in hb["params"]):
+                self.push(S, fr, "the output of %s" % last(path), line)
+            if path in self.retopen_in:
+                did = (fr.ctx, id(e))
+                S.dclosed = S.dclosed - {did}
+                return ("doc", did, frozenset({("c", did, "returned by " + path)})), S
             return UNK, S
         # --- anything else
         for v in vals:
             if v[0] == "iter":
                 raise Unsupported("child iterator passed to %s in %s (line %s)" % (path, fr.fn, line))
+        self.escape_check(S, fr, vals, path, line)
         return UNK, S
+
+    def escape_check(self, S, fr, vals, path, line):
+        for v in vals:
+            for x in self.flat(v):
+                if self.doc_open(S, x):
+                    self.r7_events.append(("escape", fr.fn, "a deferred doc that ends in a line comment is handed to %s"
+                                           % path, self.origins(S, x[2]), line))
 
     def apply_emits(self, path, vals, S):
         em = self.emits.get(path, ())
@@ -1188,10 +1439,8 @@ class Interp:
         for (_v, s) in res:
             if s is not None:
                 s.env = dict(back)
-            if _v[0] == "bsplit":
-                for x in (_v[1], _v[2]):
-                    if x is not None:
-                        x.env = dict(back)
+            for x in self.sub_states(_v):
+                x.env = dict(back)
         return self.merge_branches(res)
 
     def apply_closure(self, cid, vals, S, fr, e):
@@ -1211,6 +1460,8 @@ class Interp:
         for (_v, s) in res:
             if s is not None:
                 self.scope_exit_quiet(s, names, saved)
+            for x in self.sub_states(_v):
+                self.scope_exit_quiet(x, names, saved)
         return self.merge_branches(res)
 
     # ------------------------------------------------------------------ roots
@@ -1251,16 +1502,21 @@ class Interp:
         res = [(v, out)] + fr.rets
         finals = []
         returned = set()
+        ret_open = False
         for (rv, s) in res:
             if s is None:
                 continue
             s = s.copy()
+            self.exit_check(s, fr, "return")
+            for x in self.flat(rv):
+                if self.doc_open(s, x):
+                    ret_open = True
             for x in self.flat(rv):
                 if x[0] == "elem" and x[1] in s.pend:
                     returned.add(x[1])
                     s.pend.pop(x[1])
             finals.append(s)
-        return {"final": joinall(finals), "returned": returned}
+        return {"final": joinall(finals), "returned": returned, "ret_open": ret_open}
 
     def flat(self, v):
         if v[0] == "tup":
